@@ -35,8 +35,11 @@ func (c *DnsController) backgroundRefresh(cacheKey string, dnsMessage *dnsmessag
 	// being refreshed is expired by definition - a failed refresh must release the
 	// single-refresh latch, not delete the stale answer that is still inside its window.
 	defer func() {
+		verifYield("dnscache.rdone.start", c, cacheKey)
 		if val, ok := c.dnsCache.Load(cacheKey); ok {
+			verifYield("dnscache.rdone.afterLoad", c, cacheKey)
 			if cache, ok := val.(*DnsCache); ok && cache.IsRefreshing() {
+				verifYield("dnscache.rdone.beforeMark", c, cacheKey)
 				cache.MarkRefreshed()
 			}
 		}
